@@ -34,7 +34,7 @@ ASSUMPTIONS = [
     "a ValueError raised while the expression is built under a small budget (e.g. by the rechunk planner) is an up-front refusal, provided nothing was written",
     "'nothing written' = no store set/delete on any local or memory store and no new file under the work directory or the store target",
 ]
-NSHARDS = {"quick": 16, "thorough": 32}
+NSHARDS = {"quick": 16, "thorough": 16}
 PER_SHARD = {"quick": 45, "thorough": 270}
 
 _contract = {"fuse": 0, "fuse_multiple": 0, "installed": False, "findings": []}
@@ -311,11 +311,11 @@ def finalize(tier, merged):
     return {
         "rule": RULE,
         "floors": [
-            ("boundary probes judged", c.get("probes", 0), 2000 if tier == "quick" else 24000),
-            ("probes with an over-budget plan (must be refused up front)", c.get("probes_over_budget", 0), 600 if tier == "quick" else 7000),
-            ("probes with a plan exactly at or under its budget (must run)", c.get("probes_within_budget", 0), 1000 if tier == "quick" else 12000),
-            ("recipes probed on both sides of their boundary", c.get("recipes_with_both_sides", 0), 400 if tier == "quick" else 4500),
-            ("icontract evaluations on fuse/fuse_multiple", c.get("fuse_contract_evaluations", 0) + c.get("fuse_multiple_contract_evaluations", 0), 300 if tier == "quick" else 4000),
+            ("boundary probes judged", c.get("probes", 0), 2000 if tier == "quick" else 12000),
+            ("probes with an over-budget plan (must be refused up front)", c.get("probes_over_budget", 0), 600 if tier == "quick" else 3500),
+            ("probes with a plan exactly at or under its budget (must run)", c.get("probes_within_budget", 0), 1000 if tier == "quick" else 6000),
+            ("recipes probed on both sides of their boundary", c.get("recipes_with_both_sides", 0), 400 if tier == "quick" else 2250),
+            ("icontract evaluations on fuse/fuse_multiple", c.get("fuse_contract_evaluations", 0) + c.get("fuse_multiple_contract_evaluations", 0), 300 if tier == "quick" else 2000),
         ],
         "assumptions": ASSUMPTIONS,
     }
